@@ -5,6 +5,7 @@ PROPS = {
     'C03': {'z': [('z/digest.py', ['noninterference', 'equivalence'])]},
     'C07': {'z': [('z/digest.py', ['buildid-collision'])]},
     'C06': {'harness': ['harness/C06_sem.py']},
+    'C08': {'harness': ['harness/C08_extract.py']},
     'C09': {'harness': ['harness/C09_upload.py']},
     'C10': {'harness': ['harness/C10_state.py']},
     'C11': {'harness': ['harness/C11_dirhash.py']},
